@@ -383,4 +383,73 @@ Section LoadRoots.
         rewrite E. destruct nk as [n k]. cbn [app get fst snd] in *. rewrite (lookup_kid_In' n k kids Hnames Hnk). exact Hg.
       + destruct h; cbn; discriminate.
   Qed.
+  (* ---- distinct histories have distinct roots ---- *)
+  Lemma combine_roots_NoDup p : forall (rs : list (text * (list lhist + load_err))) l,
+    NoDup (map fst rs) ->
+    (forall n lr, In (n, inl lr) rs -> NoDup (map lh_root lr) /\ forall hh, In hh lr -> exists rel, lh_root hh = p ++ n :: rel) ->
+    combine_results rs = inl l ->
+    NoDup (map lh_root l) /\ forall hh, In hh l -> exists n rel, In n (map fst rs) /\ lh_root hh = p ++ n :: rel.
+  Proof.
+    induction rs as [|[n r] rs IH]; intros l Hn Hk H; cbn in H.
+    - injection H as <-. split; [constructor|intros hh []].
+    - destruct r as [lr|e]; [|discriminate]. destruct (combine_results rs) as [l'|e] eqn:E; [|discriminate]. injection H as <-.
+      cbn [map fst] in Hn. inversion Hn as [|? ? Hnin Hn']; subst.
+      destruct (IH l' Hn' (fun n0 lr0 Hin => Hk n0 lr0 (or_intror Hin)) eq_refl) as [Hd' Hp'].
+      destruct (Hk n lr (or_introl eq_refl)) as [Hd Hp].
+      split.
+      + rewrite map_app. apply NoDup_app_intro; [exact Hd|exact Hd'|].
+        intros x Hx Hx'. apply in_map_iff in Hx. destruct Hx as [a [<- Ha]]. apply in_map_iff in Hx'. destruct Hx' as [b [Eb Hb0]].
+        destruct (Hp a Ha) as [rel Ea]. destruct (Hp' b Hb0) as [n' [rel' [Hn'in Eb']]]. rewrite Ea, Eb' in Eb.
+        apply app_inv_head in Eb. injection Eb as Eb _. apply Hnin. rewrite <- Eb. exact Hn'in.
+      + intros hh Hin. apply in_app_or in Hin. destruct Hin as [Hin|Hin].
+        * destruct (Hp hh Hin) as [rel E']. exists n, rel. split; [left; reflexivity|exact E'].
+        * destruct (Hp' hh Hin) as [n' [rel [H1 H2]]]. exists n', rel. split; [right; exact H1|exact H2].
+  Qed.
+  Lemma sorted_kid_names p par (kids : list (text * node C)) : NoDup (map fst kids) ->
+    NoDup (map fst (sort name_leb (kid_results C cdig p par kids))).
+  Proof.
+    intros H. eapply Permutation_NoDup; [apply Permutation_map; apply sort_perm|].
+    unfold kid_results. rewrite map_map. cbn [fst]. exact H.
+  Qed.
+  Theorem discover_roots_NoDup : forall t p parent l, wf_tree C t -> discover C cdig p parent t = inl l ->
+    NoDup (map lh_root l) /\ forall hh, In hh l -> exists rel, lh_root hh = p ++ rel.
+  Proof.
+    induction t as [c|h kids IH] using node_ind'; intros p parent l Hw Hl.
+    - cbn in Hl. injection Hl as <-. split; [constructor|intros hh []].
+    - inversion Hw as [|? ? Hnames Hkids]; subst. rewrite discover_dir in Hl.
+      assert (Hk : forall par lk, combine_results (sort name_leb (kid_results C cdig p par kids)) = inl lk ->
+                   NoDup (map lh_root lk) /\ forall hh, In hh lk -> exists n rel, lh_root hh = p ++ n :: rel).
+      { intros par lk Hc. destruct (combine_roots_NoDup p _ lk (sorted_kid_names p par kids Hnames)) as [H1 H2]; [|exact Hc|].
+        - intros n lr Hin. apply sort_In in Hin. unfold kid_results in Hin. apply in_map_iff in Hin. destruct Hin as [nk [E Hnk]].
+          injection E as <- E. rewrite Forall_forall in IH, Hkids. destruct (IH nk Hnk _ _ _ (Hkids nk Hnk) E) as [A B].
+          split; [exact A|]. intros hh Hh. destruct (B hh Hh) as [rel Er]. exists rel. rewrite Er, <- app_assoc. reflexivity.
+        - split; [exact H1|]. intros hh Hh. destruct (H2 hh Hh) as [n [rel [_ E]]]. eauto. }
+      destruct h as [hh0|].
+      + destruct (check_chain C cdig hh0); [discriminate|].
+        destruct (combine_results (sort name_leb (kid_results C cdig p p kids))) as [below|e] eqn:Ec; [|discriminate].
+        injection Hl as <-. destruct (Hk p below Ec) as [Hd Hp]. split.
+        * rewrite map_app. apply NoDup_app_intro; [exact Hd|constructor; [intros []|constructor]|].
+          intros x Hx [<-|[]]. apply in_map_iff in Hx. destruct Hx as [a [Ea Ha]]. destruct (Hp a Ha) as [n [rel E]].
+          cbn [lh_root lhist_of] in Ea. rewrite E in Ea. apply (f_equal (@length text)) in Ea. rewrite app_length in Ea. cbn in Ea. lia.
+        * intros hh Hin. apply in_app_or in Hin. destruct Hin as [Hin|[<-|[]]].
+          -- destruct (Hp hh Hin) as [n [rel E]]. eauto.
+          -- exists []. cbn. rewrite app_nil_r. reflexivity.
+      + destruct (Hk parent l Hl) as [Hd Hp]. split; [exact Hd|]. intros hh Hin. destruct (Hp hh Hin) as [n [rel E]]. eauto.
+  Qed.
+  Theorem load_roots_NoDup t hs : wf_tree C t -> load C cdig t = inl hs -> NoDup (map lh_root hs).
+  Proof.
+    intros Hw Hl. destruct t as [c|h kids].
+    - cbn in Hl. injection Hl as <-. cbn. constructor; [intros []|constructor].
+    - inversion Hw as [|? ? Hnames Hkids]; subst. rewrite load_dir in Hl.
+      destruct (match h with Some hh0 => check_chain C cdig hh0 | None => None end); [discriminate|].
+      destruct (combine_results (sort name_leb (kid_results C cdig [] [] kids))) as [below|e] eqn:Ec; [|discriminate].
+      injection Hl as <-.
+      destruct (combine_roots_NoDup [] _ below (sorted_kid_names [] [] kids Hnames)) as [H1 H2]; [|exact Ec|].
+      + intros n lr Hin. apply sort_In in Hin. unfold kid_results in Hin. apply in_map_iff in Hin. destruct Hin as [nk [E Hnk]].
+        injection E as <- E. rewrite Forall_forall in Hkids. destruct (discover_roots_NoDup (snd nk) _ _ _ (Hkids nk Hnk) E) as [A B].
+        split; [exact A|]. intros hh Hh. destruct (B hh Hh) as [rel Er]. exists rel. rewrite Er. reflexivity.
+      + rewrite map_app. apply NoDup_app_intro; [exact H1|constructor; [intros []|constructor]|].
+        intros x Hx [<-|[]]. apply in_map_iff in Hx. destruct Hx as [a [Ea Ha]]. destruct (H2 a Ha) as [n [rel [_ E]]].
+        rewrite E in Ea. destruct h; cbn in Ea; discriminate.
+  Qed.
 End LoadRoots.
